@@ -41,6 +41,9 @@ inductive RData where
   | cname (n : Name)
   | soa (minimum : Nat)
   | txt (tag : Nat)
+  | srv (target : Name)
+  /-- an RRSIG covering the given type (signature bytes are irrelevant here) -/
+  | rrsig (covered : Nat)
   deriving DecidableEq, Repr, Inhabited
 
 def T_A : Nat := 1
@@ -49,6 +52,8 @@ def T_CNAME : Nat := 5
 def T_SOA : Nat := 6
 def T_TXT : Nat := 16
 def T_AAAA : Nat := 28
+def T_SRV : Nat := 33
+def T_RRSIG : Nat := 46
 def T_DS : Nat := 43
 def T_ANY : Nat := 255
 
@@ -59,6 +64,8 @@ def RData.rtype : RData → Nat
   | .cname _ => T_CNAME
   | .soa _ => T_SOA
   | .txt _ => T_TXT
+  | .srv _ => T_SRV
+  | .rrsig _ => T_RRSIG
 
 /-- `RData::ip_addr` -/
 def RData.ip? : RData → Option Ip
@@ -88,6 +95,10 @@ structure Response where
   answers : List Record
   authorities : List Record
   additionals : List Record
+  /-- TC bit as the simulated server sets it: 0 never, 1 over UDP only, 2 over stream transports as
+  well.  Not read by the model: `PoolState::try_send` repeats a truncated query over TCP, which
+  for `1` yields this very response; `2` has no model side (class predicate `truncatesAlways`). -/
+  tc : Nat := 0
   deriving DecidableEq, Repr, Inhabited
 
 /-- `Message::all_sections` -/
@@ -149,6 +160,8 @@ structure Config where
   serverFilter : Acs
   /-- `answer_address_filter` of the pool context (allow_answers / deny_answers) -/
   answerFilter : Acs
+  /-- the client's DO bit (`query_has_dnssec_ok` of `Recursor::resolve`) -/
+  dnssecOk : Bool := false
   deriving Repr
 
 /-- `MAX_CNAME_LOOKUPS` (tied to the source by `Proofs/TiesC19.lean`) -/
@@ -543,6 +556,31 @@ def cnameTarget? (r : Record) : Option Name :=
   | .cname t => some t
   | _ => none
 
+/-- what `resolve_cnames` takes over from the answer of a CNAME target: records of the query type,
+CNAMEs, and RRSIGs covering either -/
+def chainKeeps (qtype : Nat) (x : Record) : Bool :=
+  x.rtype == qtype || x.rtype == T_CNAME ||
+    match x.data with
+    | .rrsig c => c == qtype || c == T_CNAME
+    | _ => false
+
+/-- `RecordType::is_dnssec` on the record types of the simulated internets (only RRSIG records
+occur; DS appears as a query type only) -/
+def isDnssecType (t : Nat) : Bool := t == T_RRSIG
+
+/-- `Message::maybe_strip_dnssec_records` -/
+def stripDnssec (dnssecOk : Bool) (q : Query) (r : Response) : Response :=
+  if dnssecOk then r
+  else
+    let keep := fun (x : Record) => x.rtype == q.qtype || !isDnssecType x.rtype
+    { r with answers := r.answers.filter keep, authorities := r.authorities.filter keep,
+             additionals := r.additionals.filter keep }
+
+/-- the last step of `RecursorDnsHandle::resolve` on a successful outcome -/
+def stripRes (cfg : Config) (q : Query) : St × Except Err Response → St × Except Err Response
+  | (st, .ok r) => (st, .ok (stripDnssec cfg.dnssecOk q r))
+  | x => x
+
 /-- the `for rec in response.all_sections()` loop of `resolve_cnames` -/
 def chaseLoop (rec : ResRec) (resp : Response) (qtype : Nat) (depth : Nat) :
     List Record → List Record → St → St × Except Err (List Record)
@@ -559,7 +597,7 @@ def chaseLoop (rec : ResRec) (resp : Response) (qtype : Nat) (depth : Nat) :
           match rec ⟨target, qtype⟩ depth st with
           | (st, .error e) => (st, .error e)
           | (st, .ok r') =>
-            let more := r'.answers.filter fun x => x.rtype == qtype || x.rtype == T_CNAME
+            let more := r'.answers.filter (chainKeeps qtype)
             chaseLoop rec resp qtype depth rs (chain ++ more) st
 
 /-- `resolve_cnames` -/
@@ -592,7 +630,7 @@ def resolveMiss (cfg : Config) (net : Net) (rec : ResRec) (q : Query) (depth : N
   | (st, .ok (depth, pool)) =>
     match answerQuery cfg net q pool st with
     | (st, .error e) => (st, .error e)
-    | (st, .ok resp) => resolveCnames cfg rec resp q depth st
+    | (st, .ok resp) => stripRes cfg q (resolveCnames cfg rec resp q depth st)
 
 /-- `RecursorDnsHandle::resolve`; the fuel stands for the nesting of `resolve_cnames → resolve`,
 which the depth counter bounds by `recursion_limit` -/
@@ -602,7 +640,7 @@ def resolveFuel (cfg : Config) (net : Net) : Nat → ResRec
     match rcGet st.rcache q with
     | some (.error e) => (st, .error e)
     | some (.ok r) =>
-      if r.aa then resolveCnames cfg (resolveFuel cfg net f) r q depth st
+      if r.aa then stripRes cfg q (resolveCnames cfg (resolveFuel cfg net f) r q depth st)
       else resolveMiss cfg net (resolveFuel cfg net f) q depth st
     | none => resolveMiss cfg net (resolveFuel cfg net f) q depth st
 
@@ -636,6 +674,10 @@ def negativeWithDeniedAddress (f : Acs) (q : Query) (r : Response) : Bool :=
    | _ => false) &&
     (r.authorities ++ r.additionals).any fun x => !addrAllowed f x
 
+/-- `C19.TruncatedStreamAnswerRetriedUnbounded`: the server sets TC on its answer over stream
+transports too — `PoolState::try_send` then asks it again and again until its wall-clock deadline. -/
+def truncatesAlways (r : Response) : Bool := r.tc == 2
+
 /-! ## stub resolver alias chasing (`CachingClient::inner_lookup`, `DepthTracker`) -/
 
 /-- `DepthTracker::MAX_QUERY_DEPTH` (tied to the source by `Proofs/TiesC19.lean`) -/
@@ -649,8 +691,9 @@ whether CNAME records of earlier hops have been accumulated (`preserved_records`
 inductive StubStep where
   /-- `Records::Exists` -/
   | found
-  /-- `Records::CnameChain`: ask for `target` next -/
-  | alias (target : Name)
+  /-- `Records::CnameChain`: ask for `target` next; `cnames` = the response carried CNAME records
+  (they are what `preserve_intermediates` accumulates — an SRV redirection leaves nothing) -/
+  | alias (target : Name) (cnames : Bool)
   /-- `NoRecordsFound` / upstream error -/
   | nothing
 
@@ -660,12 +703,14 @@ def foldCnames (search : Name) (was : Bool) : List Record → Name × Bool
   | r :: rs =>
     match r.data with
     | .cname t => if search.eq r.name then foldCnames t true rs else foldCnames search was rs
+    | .srv t => foldCnames t true rs
     | _ => foldCnames search was rs
 
 /-- the decision at the end of `handle_noerror` -/
-def stubDecide (found was preserved : Bool) (depth : Nat) (search : Name) : StubStep :=
+def stubDecide (found was preserved : Bool) (depth : Nat) (search : Name) (cnames : Bool) :
+    StubStep :=
   if found && (!was || !preserved) then .found
-  else if was && !depthExhausted depth then .alias search
+  else if was && !depthExhausted depth then .alias search cnames
   else .nothing
 
 def stubClassify (q : Query) (preserved : Bool) (depth : Nat) (up : Except Err Response) : StubStep :=
@@ -680,22 +725,24 @@ def stubClassify (q : Query) (preserved : Bool) (depth : Nat) (up : Except Err R
         else foldCnames q.name false r.answers
       let found := r.all.any fun x =>
         (q.qtype == T_ANY || x.rtype == q.qtype) && (sw.1.eq x.name || q.name.eq x.name)
-      stubDecide found sw.2 preserved depth sw.1
+      stubDecide found sw.2 preserved depth sw.1 (r.all.any fun x => x.rtype == T_CNAME)
 
 /-- `inner_lookup` without the cache: returns (answered?, number of upstream queries).  The
 recursion is on the distance of the `DepthTracker` to `MAX_QUERY_DEPTH`. -/
-def stubLookup (up : Query → Except Err Response) : Nat → Query → Nat → Bool → Bool × Nat
+def stubLookup (up : Query → Except Err Response) (pi : Bool) :
+    Nat → Query → Nat → Bool → Bool × Nat
   | 0, _, _, _ => (false, 0)
   | f + 1, q, depth, preserved =>
     match stubClassify q preserved depth (up q) with
     | .found => (true, 1)
     | .nothing => (false, 1)
-    | .alias target =>
-      let r := stubLookup up f ⟨target, q.qtype⟩ (depth + 1) true
+    | .alias target cnames =>
+      -- with `preserve_intermediates` the CNAME records of this hop are carried along
+      let r := stubLookup up pi f ⟨target, q.qtype⟩ (depth + 1) (preserved || (pi && cnames))
       (r.1, r.2 + 1)
 
-/-- `CachingClient::lookup` -/
-def stubResolve (up : Query → Except Err Response) (q : Query) : Bool × Nat :=
-  stubLookup up MAX_QUERY_DEPTH q 0 false
+/-- `CachingClient::lookup`; `pi` = `ResolverOpts::preserve_intermediates` -/
+def stubResolve (up : Query → Except Err Response) (q : Query) (pi : Bool := true) : Bool × Nat :=
+  stubLookup up pi MAX_QUERY_DEPTH q 0 false
 
 end HickoryVerif.Recursor
